@@ -342,6 +342,10 @@ pub fn run(ctx: &Arc<Ctx>) {
     for id in crate::alpha::NORM_IDS {
         cases.push(Case::Enc { ke: ANNEX_KE.into(), id: id.into(), msg_len: 20, r: ANNEX_R.into(), tag: "id=normalisation-sensitive".into() });
     }
+    // identity lengths 0..=300 (step 3 in the quick tier): the identity is part of the KDF input
+    for il in (0..=300usize).step_by(ctx.tier.pick(3usize, 1)) {
+        cases.push(Case::Enc { ke: ANNEX_KE.into(), id: format!("len:{}", il), msg_len: 20, r: ANNEX_R.into(), tag: "idlen-sweep".into() });
+    }
     // all-zero and all-ones messages; a sender object that holds the master PUBLIC key only (secret field 0 / 1)
     for l in [1usize, 2, 16, 32, 33, 255] {
         for t in ["content=zero", "content=ff"] {
